@@ -184,3 +184,13 @@ def c17_cycle_inside_deep_state(case, detail):
     from .props import c17
     name = c17.shapes()[spec[2]][0]
     return name not in ('Plain', 'SetItemDict', 'tuple', 'list', 'dict') and 'unconstructable recursive node' in detail
+
+
+def c17_nested_qualname(case, detail):
+    """the graph contains an instance of a class defined inside another class, such a class itself, or a function defined in
+    a class body: Representer writes module + __name__ ('vf_shapes.Inner'), which does not resolve; the loader reports
+    "cannot find 'Inner' in the module" (ConstructorError).  pickle protocol 2 reaches it through getattr on the outer class."""
+    from .props import c17
+    if 'cannot find' not in detail or 'in the module' not in detail:
+        return False
+    return 'nested-qualname' in c17.features(c17.build(tuple(case['spec'])))
